@@ -36,6 +36,10 @@ NODES = ("T", "B", "D")
 HASHES = [bytes([0x11]) * 32, bytes([0x22]) * 32]
 NAMES = ["n1", "n2"]
 EXTRA = {"k": "v"}
+# add_known_hash metadata alphabet: not fixed / fixed to {"k":"v"} / fixed to "exactly no extra fields" (boundary: {})
+REG_MD = [None, EXTRA, {}]
+# extra metadata a subject puts into its credential: none / {"k":"v"} / a superset of it
+REQ_EXTRA = [None, EXTRA, {"k": "v", "role": "admin"}]
 FAKE_POINTER = bytes([0xFA]) * 32
 PAYLOADS = {1: DisclosePayload, 2: AttestPayload, 3: RequestMissingPayload, 4: MissingResponsePayload}
 KIND = {1: "disclose", 2: "attest", 3: "request-missing", 4: "missing-response"}
@@ -43,7 +47,9 @@ DELIVERY_CAP = 64      # datagrams per event; never reached on the explored spac
 EXPIRED = 301.0        # age bucket: anything older than 300 s can never be signed for again
 
 EXPLANATION = (
-    "BFS over histories of user actions (T.add_known_hash, B/D.request_attestation_advertisement, B.self_advertise), "
+    "BFS over histories of user actions (T.add_known_hash, B/D.request_attestation_advertisement, B.self_advertise; in "
+    "config 'fields' the registration metadata ranges over None / {k:v} / {} and the credential's extra fields over "
+    "none / {k:v} / a superset), "
     "virtual time steps (299 s / 301 s) and adversarial datagrams (replay of a recorded disclosure from its own or the "
     "other subject's address, B's chain re-disclosed under D's signature, RequestMissing from T / D, attest messages "
     "that are valid, third-party signed, address-spoofed or altered, a disclosure that carries the subject's own "
@@ -157,7 +163,8 @@ class W:
 
 class Model(core.BfsModel):
     """
-    cfg: hashes, names (1|2), reg_keys, reg_md (list of 0/1), req_subjects, req_extra (list of 0/1), rm_known (list),
+    cfg: hashes, names (1|2), reg_keys, reg_md (indices into REG_MD), req_subjects, req_extra (indices into REQ_EXTRA),
+         rm_known (list),
          time (list of seconds), groups (which of ALL_GROUPS are in the alphabet), max_replay, reqatt_subjects
     """
 
@@ -221,7 +228,7 @@ class Model(core.BfsModel):
         if kind == "reg":
             _, h, n, k, md = ev
             self._use(w, h, n)
-            meta = dict(EXTRA) if md else None
+            meta = None if REG_MD[md] is None else dict(REG_MD[md])
             sim.nodes["T"].run(ov["T"].add_known_hash, HASHES[h], NAMES[n], w.key[k], meta)
             w.consent["T"].register(HASHES[h], NAMES[n], w.key[k], meta, w.now())
         elif kind == "time":
@@ -231,7 +238,7 @@ class Model(core.BfsModel):
             self._use(w, h, n)
             before = len(sim.wire_log)
             sim.nodes[s].run(ov[s].request_attestation_advertisement, w.peer_of(s, "T"), HASHES[h], NAMES[n],
-                             "id_metadata", dict(EXTRA) if x else None)
+                             "id_metadata", None if REQ_EXTRA[x] is None else dict(REQ_EXTRA[x]))
             self._record_request(w, s, before, (h, n, x))
         elif kind == "reqatt":
             # the subject first attests its own new credential and ships that attestation inside the disclosure
@@ -480,7 +487,8 @@ def configs(ctx: core.Ctx) -> list[tuple[Model, int]]:
     # who may be attested: two hashes, both subjects register and request; one name, no extra metadata
     subjects = _cfg(names=1, reg_md=[0], req_extra=[0], groups=["replay", "steal", "reqatt"])
     # what may be attested: one hash, subject B; both names, with and without fixed / extra metadata
-    fields = _cfg(hashes=1, reg_keys=["B"], req_subjects=["B"], groups=["replay"])
+    # metadata: not fixed / {"k":"v"} / {} (exactly nothing) against credentials with none / {"k":"v"} / a superset
+    fields = _cfg(hashes=1, reg_keys=["B"], req_subjects=["B"], reg_md=[0, 1, 2], req_extra=[0, 1, 2], groups=["replay"])
     # token hand-out and incoming attestations: one hash/name, B requests and self-advertises, T/D ask for tokens
     tokens = _cfg(hashes=1, names=1, reg_keys=["B"], reg_md=[0], req_subjects=["B"], req_extra=[0], time=[301],
                   groups=["adv", "rm", "att", "replay"])
@@ -489,7 +497,8 @@ def configs(ctx: core.Ctx) -> list[tuple[Model, int]]:
         return [
             (Model("full", full, s), 4),
             (Model("subjects", subjects, s), 5),
-            (Model("fields", fields, s), 5),
+            (Model("fields", fields, s), 4),
+            (Model("fields-2x2", _cfg(hashes=1, reg_keys=["B"], req_subjects=["B"], groups=["replay"]), s), 5),
             (Model("tokens", tokens, s), 5),
         ]
     return [
